@@ -279,9 +279,11 @@ func TestC18(t *testing.T) {
 		})
 		c.rec.Require("mode_" + m.name)
 		// multi-byte characters in front of backslash runs (2-, 3- and 4-byte UTF-8, a lone high byte)
-		alphaU := []string{d, "\\", "\xc3\xa9", "\xf0\x9f\x98\x80", "\xe2\x82\xac", "\xe9", "a"}
+		// ... plus characters whose code point, truncated to 8 bits, is the delimiter or the backslash
+		alias := map[byte]string{'\'': "\u5927", '"': "\u0122", '`': "\u0160"}[m.delim]
+		alphaU := []string{d, "\\", "\xc3\xa9", "\xf0\x9f\x98\x80", "\xe2\x82\xac", "\xe9", "a", alias, "\u015c"}
 		Lu := pick(5, 6)
-		p = c.rec.NewPart("quote_utf8_"+m.name, fmt.Sprintf("every body of length 0..%d over {delimiter, backslash, 2-/4-/3-byte UTF-8 characters, lone 0xE9, a}", Lu), false, true, "")
+		p = c.rec.NewPart("quote_utf8_"+m.name, fmt.Sprintf("every body of length 0..%d over {delimiter, backslash, 2-/4-/3-byte UTF-8 characters, lone 0xE9, a, a character whose code point truncates to the delimiter, one that truncates to the backslash}", Lu), false, true, "")
 		c.EnumSeq(p, alphaU, "", 0, Lu, func(w *Worker, s string) { w.Judge(ev.Case{Kind: "quote", N: k, In: s}) })
 	}
 
